@@ -31,7 +31,10 @@ RULE = ("rings are created through a guard-page allocator with requested sizes t
         "2^32-w, 2^32-N, 2^31, N, N+fill, 2N on empty and non-empty rings, as writes and as amends inside transactions "
         "followed by further amends and the commit): the C driver passes the size with a source block of N+64 bytes that "
         "ends at a PROT_NONE page (a wrongly accepted request faults = failure), the model driver uses an N-byte stand-in "
-        "source (Properties_C04_huge: the model's trace/results/memory do not depend on a source of >= N bytes); schedule cases: writer/reader programs of <=3 calls on a ring of "
+        "source (Properties_C04_huge: the model's trace/results/memory do not depend on a source of >= N bytes); "
+        "read/peek/skip sizes also N..2^32-1 (2^32-1, 2^32-2, 2^32-r(+-1), 2^32-w, 2^32-N, 2^31, 2^31+r, N+rs, 2N on every "
+        "head pair, wrapped or not): read/peek get a destination block of N+64 bytes ending at a PROT_NONE page, the model "
+        "takes the size as a number; schedule cases: writer/reader programs of <=3 calls on a ring of "
         "size 4 (and 2, 8), all schedules incl. stale loads enumerated depth-first (budgeted in quick, exhaustive in "
         "thorough) plus seeded random schedules; non-trivial = a trace case with a non-zero size argument, or any "
         "schedule case; distinct case strings counted")
@@ -96,6 +99,13 @@ def huge_sizes(N, fill, w):
     return sorted(set(x for x in c if N <= x <= U32 - 1))
 
 
+def rhuge_sizes(N, r, w):
+    """reader-side request sizes >= N aimed at 32-bit wrap-around of r + size (r, w = the heads the reader sees)"""
+    rs = (w - r) % N
+    c = [U32 - 1, U32 - 2, U32 - r, U32 - r - 1, U32 - r + 1, U32 - w, U32 - N, 1 << 31, (1 << 31) + r, N + rs, 2 * N]
+    return sorted(set(x for x in c if N <= x <= U32 - 1))
+
+
 def ops_for_state(N, r, w, huge_keep=None):
     """single API calls worth trying in state (r, w): sizes at and around the space boundaries;
     huge_keep: None = all over-long request cases, else a predicate deciding which of them to keep (quick tier)"""
@@ -120,6 +130,11 @@ def ops_for_state(N, r, w, huge_keep=None):
     a = min(1, ws)                                           # inside a transaction that has already amended a bytes
     for n in huge_sizes(N, rs + a, (w + a) % N):
         big.append(["B", "A%d" % a, "A%d" % n, "A%d" % (ws - a), "C", "s", "R%d" % (rs + ws)])
+    # the same on the reader's side: read / peek / skip of N..2^32-1 bytes are refused, the heads stay
+    for n in rhuge_sizes(N, r, w):
+        big.append(["R%d" % n, "s"])
+        big.append(["P%d" % n, "s"])
+        big.append(["K%d" % n, "s", "P%d" % rs])
     out += [c for c in big if huge_keep is None or huge_keep()]
     return out
 
@@ -170,7 +185,7 @@ def gen(ctx, seed, tier):
         for _ in range(r.randint(2, 8)):
             c = r.choice(["W", "W", "R", "R", "P", "K", "S", "s", "T"])
             n = r.choice([0, 1, 2, 3, N // 2, N - 1, N, r.randint(0, N + 1)])
-            if c == "W" and r.random() < 0.12:
+            if c in "WRPK" and r.random() < 0.12:
                 n = rand_huge(r, N)
             if c == "T":
                 seq += ["B"] + ["A%d" % (rand_huge(r, N) if r.random() < 0.12 else r.choice([0, 1, 2, N // 2]))
@@ -197,7 +212,9 @@ def gen(ctx, seed, tier):
             rs = (wh - rh) % N
             ws = N - 1 - rs
             hs = huge_sizes(N, rs, wh)
+            rhs = rhuge_sizes(N, rh, wh)
             op = r.choice(["W%d s" % r.choice(hs), "B A%d A%d C s" % (r.choice(hs), ws),
+                           "R%d s" % r.choice(rhs), "P%d s" % r.choice(rhs), "K%d s R%d" % (r.choice(rhs), rs),
                            "W%d" % ws, "W%d" % (ws + 1), "W%d" % r.randint(0, N), "R%d" % rs, "R%d" % (rs + 1),
                            "P%d" % r.randint(0, N), "K%d" % rs, "R%d" % r.randint(0, N), "S", "s",
                            "B A%d A%d C s" % (ws // 2, ws - ws // 2), "W%d R%d" % (ws, rs + ws)])
@@ -301,7 +318,7 @@ def stats(cases, impl):
         if t[0] != "T":
             return False
         N = 1 << int(t[1].split("/")[0])
-        return any(x[0] in "WA" and x[1:].isdigit() and int(x[1:]) >= N for x in t[4:])
+        return any(x[0] in "WARPK" and x[1:].isdigit() and int(x[1:]) >= N for x in t[4:])
     d = {"trace_cases": sum(c.startswith("T") for c in cases),
          "trace_cases_with_overlong_request": sum(overlong(c) for c in cases),
          "schedule_cases": sum(c.startswith("X") for c in cases),
